@@ -54,7 +54,8 @@ def requirements(tier):
             'returned': 15000 if q else 200000,
             'raised_recognition': 15000 if q else 200000,
             'typed_attribute_calls': 15000 if q else 200000,
-            'purity_checks': 60000 if q else 700000}
+            'purity_checks': 60000 if q else 700000,
+            'documents_judged_at_the_end_of_a_stream': 4000 if q else 60000}
 
 
 class Color(enum.Enum):
@@ -409,6 +410,7 @@ class Env:
                                          Polygon, Square, Base2, Kid2)
         plain = yatiml.load_function()
         self.ctor = plain.loader('')
+        self.loaded_ok = []     # short documents that parse (stream fillers)
 
 
 _env = None
@@ -421,14 +423,56 @@ def get_env():
     return _env
 
 
-def run_case(ctx, env, text, call):
+def run_case(ctx, env, text, call, stream=0):
     case = {'text': text, 'call': call}
     Probe.LOG = []
     Probe.CALL = staticmethod(lambda node: do_call(node, call))
-    try:
-        env.load(text)
-    except Exception:      # the load's own fate is irrelevant here
-        pass
+    if stream:
+        # the judged document is the last of a multi-document stream read
+        # through the load function's loader class (yaml.load_all): one
+        # loader object - one recogniser - sees all documents, the nodes of
+        # the earlier ones are gone when the last is composed
+        fill = [env.loaded_ok[ctx.rng.randrange(len(env.loaded_ok))]
+                for _ in range(stream)]
+        case['stream_before'] = fill
+        joined = '---\n' + '---\n'.join(
+            t if t.endswith('\n') else t + '\n' for t in fill + [text])
+        ldr = env.load.loader(joined)
+        try:
+            try:
+                for _ in fill:
+                    if not ldr.check_data():
+                        raise ValueError('stream ended early')
+                    try:
+                        ldr.get_data()
+                    except yatiml.RecognitionError:
+                        pass    # a document that is refused; the next one
+                        # is composed from the stream all the same
+            except Exception:   # a filler that does not stand in a stream
+                ctx.count('stream_fillers_failed')
+                ctx.case(case, False)
+                return
+            Probe.LOG = []
+            try:
+                if ldr.check_data():
+                    ldr.get_data()
+            except Exception:
+                pass
+        finally:
+            ldr.dispose()
+        ctx.count('documents_judged_at_the_end_of_a_stream')
+    else:
+        try:
+            env.load(text)
+            ok = True
+        except yatiml.RecognitionError:
+            ok = True
+        except Exception:      # the load's own fate is irrelevant here
+            ok = False
+        if ok and len(env.loaded_ok) < 400 and len(text) < 200 and \
+                not text.startswith(('%', '---')) and '\n...' not in text \
+                and '\n---' not in text:
+            env.loaded_ok.append(text)
     log = Probe.LOG
     if not log:
         ctx.count('document_never_reached_hook')
@@ -625,7 +669,29 @@ def shard(ctx):
             call = ctx.rng.choice(CALLS if ctx.rng.random() < 0.3
                                   else FOCUS_CALLS)
         run_case(ctx, env, text, call)
+        if len(env.loaded_ok) >= 20 and ctx.rng.random() < 0.15:
+            run_case(ctx, env, text, call, stream=ctx.rng.randint(1, 12))
 
 
 def replay(ctx, case):
-    run_case(ctx, get_env(), case['text'], case['call'])
+    env = get_env()
+    if case.get('stream_before'):
+        env.loaded_ok = list(case['stream_before'])
+        import random
+        ctx.rng = _Fixed(len(env.loaded_ok))
+        run_case(ctx, env, case['text'], case['call'],
+                 stream=len(env.loaded_ok))
+        return
+    run_case(ctx, env, case['text'], case['call'])
+
+
+class _Fixed:
+    """rng stand-in for replays: the fillers in their recorded order."""
+
+    def __init__(self, n):
+        self.i = -1
+        self.n = n
+
+    def randrange(self, n):
+        self.i += 1
+        return self.i % self.n
